@@ -302,7 +302,7 @@ func runC07(seed uint64, n int, outDir string, replay string) {
 		o.NewCase()
 		o.Op("newcase")
 		ans("ok")
-		rg := cwRegime{preTx: rc.Chance(30)}
+		rg := cwRegime{preTx: c%4 == 3} // one case in four stays in the early, transaction-less chain
 		cwSetParams(rg)
 		func() {
 			defer func() {
